@@ -126,7 +126,12 @@ def run(tier):
         shutil.rmtree(tmp, ignore_errors=True)
     if len(records) < 0.5 * len(cases):
         raise common.MachineryFailure("only %d of %d documents could be loaded plainly: nothing to judge" % (len(records), len(cases)))
-    verdicts = tracecheck.validate("TraceComments", records, "c13", ck=ck, chunk=300)
+    def canary(r):
+        if not r["variants"]:
+            return None
+        r["variants"][-1]["hidden_ok"] = False
+        return r
+    verdicts = tracecheck.validate("TraceComments", records, "c13", ck=ck, chunk=300, canary=canary)
     for tid, v in verdicts.items():
         if v["verdict"] != "ok":
             vd = v["verdict"]
